@@ -61,7 +61,7 @@ func (c03) Budget(tier string) runner.Budget {
 
 func (c03) Describe() runner.Description {
 	return runner.Description{
-		Rule: "each history is 1..6 seeded blocks of balance/nonce/storage/code mutations (about half of the blocks write >100 KiB so that the commit is split over several batch writes; some write nothing new) committed as blockChain.saveStates does. evaluations = crash images: for every block and EVERY prefix k=0..N of its physical writes, the disk image (everything durable before + first k writes) is opened with a brand-new database and walked completely (account trie, every storage trie, every code blob): all earlier roots must resolve and read back every recorded value; the block's own root must do so whenever its top node is on disk, and always for k=N. A write-error variant makes one physical write fail: Commit must report it and earlier roots stay intact; the same root is then committed again by the surviving process, and if that reports success the root must resolve from disk alone. exhaustive=true refers to the write prefixes of each generated history (the histories themselves are sampled). distinct_nontrivial = distinct (history, block, k) with 0<k<N, i.e. crash points strictly inside a multi-batch commit.",
+		Rule: "each history is 1..6 seeded blocks of balance/nonce/storage/code mutations (code blobs up to 120 KB; code set and set again inside a reverted snapshot) (about half of the blocks write >100 KiB so that the commit is split over several batch writes; some write nothing new) committed as blockChain.saveStates does. evaluations = crash images: for every block and EVERY prefix k=0..N of its physical writes, the disk image (everything durable before + first k writes) is opened with a brand-new database and walked completely (account trie, every storage trie, every code blob): all earlier roots must resolve and read back every recorded value; the block's own root must do so whenever its top node is on disk, and always for k=N. A write-error variant makes one physical write fail: Commit must report it and earlier roots stay intact; the same root is then committed again by the surviving process, and if that reports success the root must resolve from disk alone. exhaustive=true refers to the write prefixes of each generated history (the histories themselves are sampled). distinct_nontrivial = distinct (history, block, k) with 0<k<N, i.e. crash points strictly inside a multi-batch commit.",
 		Assumptions: []string{"crash model = process death: completed physical writes (Put or whole batch) survive, nothing is torn or lost (the code never syncs; the properties speak of process death)", "values read back on the un-crashed state right after each commit are the reference"},
 		Real:        []string{"storage/account (AccountDB.Commit, account objects)", "storage/trie (NodeDatabase.Commit, commit ordering, batches)", "storage/rlp"},
 		Stub:        []string{"disk: simdisk.KV (write log, crash images, write faults)"},
@@ -114,6 +114,12 @@ func (c03) Gen(seed uint64, tier string) json.RawMessage {
 				m.N = r.Range(1, 500)
 				if big {
 					m.N = r.Range(10000, 40000)
+					if r.Chance(0.3) {
+						m.N = r.Range(65000, 120000) // around and above 64 KiB (the VM allows 240 KiB of code)
+					}
+				}
+				if r.Chance(0.2) {
+					m.K = "recode" // code set, then set again inside a snapshot that is reverted (a failed redeploy)
 				}
 			default:
 				m.K = "del"
@@ -161,6 +167,12 @@ func c03Apply(st *account.AccountDB, m c03Mut, seed uint64) {
 		st.SetData(a, c03Slot(m.S), c03Bytes(seed, m.N))
 	case "code":
 		st.SetCode(a, c03Bytes(seed^0x55, m.N))
+	case "recode":
+		st.SetCode(a, c03Bytes(seed^0x55, m.N))
+		id := st.Snapshot()
+		st.SetCode(a, c03Bytes(seed^0x77, m.N/2+1))
+		st.SetData(a, c03Slot(m.S), c03Bytes(seed^0x78, 9))
+		st.RevertToSnapshot(id)
 	case "del":
 		st.RemoveData(a, c03Slot(m.S))
 	}
@@ -467,7 +479,7 @@ func (c03) Shrink(raw json.RawMessage) []json.RawMessage {
 	}
 	for i, blk := range p.Blocks {
 		for j, m := range blk {
-			if m.N > 100 && (m.K == "data" || m.K == "code") {
+			if m.N > 100 && (m.K == "data" || m.K == "code" || m.K == "recode") {
 				q := p
 				q.Blocks = append([][]c03Mut{}, p.Blocks...)
 				q.Blocks[i] = append([]c03Mut{}, blk...)
